@@ -98,9 +98,6 @@ impl Property for C03 {
         if !accepted_at(&r, case.log.header.len(), case.bs) {
             return Outcome::discard("outside block-zero acceptance (F6)");
         }
-        if case.codec.is_streamed() && streamed_alignment_hazard(&r.bytes, case.bs) {
-            return Outcome::discard("streamed block-alignment hazard (known finding F22)");
-        }
         let sc = Scratch::new();
         let f = match wrap(&case.codec, &r.bytes, &sc.dir, "a.log", "a.log") {
             Ok(f) => f,
